@@ -523,10 +523,47 @@ func fbb.min(a, b) (r)
   props C18
   ensures def: r == min(a, b)
 
+# Validate: the Winlink message-structure constraints, each verdict exactly as documented -
+# MID 1..12 bytes, at least one receiver, a From field, a non-empty body, a subject of 1..128
+# bytes, attachment names of at most 255 bytes; nil only if all of them hold
+ghost var gVMid1 string
+ghost var gVMid2 string
+ghost var gVRecv int
+ghost var gVFrom string
+ghost var gVBody int
+ghost var gVSubj1 string
+ghost var gVSubj2 string
+ghost var gVFiles []*fbb.File
+ghost var gVName string
 func fbb.(*Message).Validate(m) (err)
-  props C09
-  trusted
+  props C09 C05
   pure
+  # (no safety sweep: a nil attachment entry is excluded by ReadFrom's every-attachment-allocated and
+  # AddFile, a representation invariant of Message that callers cannot restate per element here)
+  nosafety
+  requires m: m != nil
+  call fbb.(*Message).MID#0 set gVMid1 := $r0
+  call fbb.(*Message).MID#1 set gVMid2 := $r0
+  call fbb.(*Message).Receivers set gVRecv := len($r0)
+  call fbb.(Header).Get#0 requires from-field: $1 == "From"
+  call fbb.(Header).Get#0 set gVFrom := $r0
+  call fbb.(*Message).BodySize set gVBody := $r0
+  call fbb.(Header).Get#1 requires subject-field: $1 == "Subject"
+  call fbb.(Header).Get#1 set gVSubj1 := $r0
+  call fbb.(Header).Get#2 requires subject-field: $1 == "Subject"
+  call fbb.(Header).Get#2 set gVSubj2 := $r0
+  call fbb.(*Message).Files set gVFiles := $r0
+  call fbb.(*File).Name#0 set gVName := $r0
+  at return#0 requires empty-mid: len(gVMid1) == 0 && $r0 != nil
+  at return#1 requires mid-longer-than-12: len(gVMid2) > 12 && $r0 != nil
+  at return#2 requires no-receiver: gVRecv == 0 && $r0 != nil
+  at return#3 requires no-from: len(gVFrom) == 0 && $r0 != nil
+  at return#4 requires empty-body: gVBody == 0 && $r0 != nil
+  at return#5 requires empty-subject: len(gVSubj1) == 0 && $r0 != nil
+  at return#6 requires subject-longer-than-128: len(gVSubj2) > 128 && $r0 != nil
+  at return#7 requires attachment-name-longer-than-255: len(gVName) > 255 && $r0 != nil
+  at return#8 requires valid-only-if-every-constraint-holds: $r0 == nil && len(gVMid1) > 0 && len(gVMid2) <= 12 && gVRecv > 0 && len(gVFrom) > 0 && gVBody != 0 && len(gVSubj1) > 0 && len(gVSubj2) <= 128 && $idx0 >= len(gVFiles)
+  loop 0 invariant names-so-far: true
 
 # a proposal made from a queued message carries all of its compressed data (compression
 # itself is C06's subject): compressedSize is the length of the data that will be sent
